@@ -82,6 +82,7 @@ func (s *Sim) fire(t *Timer) {
 	}
 	select {
 	case t.c <- epoch.Add(time.Duration(s.now)):
+		s.dirty = append(s.dirty, chanPtr(t.c))
 	default:
 	}
 	if t.tick != nil && !t.tick.stop {
@@ -132,6 +133,7 @@ func (t *Timer) Stop() bool {
 	if s.cfg.NewTimers && t.c != nil {
 		select {
 		case <-t.c:
+			s.dirty = append(s.dirty, chanPtr(t.c))
 		default:
 		}
 	}
@@ -151,6 +153,7 @@ func (t *Timer) Reset(d time.Duration) bool {
 	if s.cfg.NewTimers && t.c != nil {
 		select {
 		case <-t.c:
+			s.dirty = append(s.dirty, chanPtr(t.c))
 		default:
 		}
 	}
